@@ -75,14 +75,14 @@ func main() {
 	}
 	if versionFlag {
 		if Version != "" {
-			fmt.Println(Version)
+			printVersion(Version)
 			return
 		}
 		if buildInfo, ok := debug.ReadBuildInfo(); ok {
-			fmt.Println(buildInfo.Main.Version)
+			printVersion(buildInfo.Main.Version)
 			return
 		}
-		fmt.Println("(unknown)")
+		printVersion("(unknown)")
 		return
 	}
 
@@ -162,4 +162,10 @@ func errorf(format string, v ...interface{}) {
 
 func warning(msg string) {
 	log.Printf("age-keygen: warning: %s", msg)
+}
+
+func printVersion(v string) {
+	if _, err := fmt.Println(v); err != nil {
+		errorf("failed to write output: %v", err)
+	}
 }
